@@ -128,6 +128,8 @@ fn c03_cell(run: &mut Run, l: usize, f: Form, cell: &lt::Cell, bits: u16, h: Han
             let ok = match &got {
                 Ok(DecodedKey::Unicode(c)) => want.accepts(*c),
                 Ok(DecodedKey::RawKey(_)) => matches!(want, Want::Any),
+                #[allow(unreachable_patterns)]
+                Ok(_) => matches!(want, Want::Any),
                 Err(_) => false,
             };
             if !ok {
@@ -146,6 +148,18 @@ fn c03_cell(run: &mut Run, l: usize, f: Form, cell: &lt::Cell, bits: u16, h: Han
             // influence of Ctrl is not specified -> not judged. When AltGr exists only as
             // left Alt + Ctrl, the state "without AltGr" is the one without left Alt and Ctrl.
             if fa.ctrl && bits & M_RALT != 0 {
+                *skipped += 1;
+                return;
+            }
+            // left Alt + Ctrl on a key without an AltGr level: whatever differs from the plain
+            // state may be Ctrl's doing (Ctrl+[ = ESC), which C03 leaves alone
+            if fa.ctrl && !has_level {
+                *skipped += 1;
+                return;
+            }
+            // CapsLock is an exact Shift inversion on a cased-letter key (C10), so there
+            // CapsLock+AltGr is the Shift+AltGr level, which the statement leaves unconstrained
+            if fa.caps && oracle_cased(cell) {
                 *skipped += 1;
                 return;
             }
@@ -664,7 +678,8 @@ fn decimal_separators(l: usize) -> Vec<char> {
         L_NO | L_FISE => vec![','],
         // German keypads print a comma, the crate types a full stop and nowhere claims a comma:
         // both accepted (DESIGN §6.3)
-        L_DE => vec!['.', ','],
+        // AZERTY: KBDFR types a full stop, French keypads and the French locale use a comma
+        L_DE | L_FR => vec!['.', ','],
         _ => vec!['.'],
     }
 }
@@ -729,8 +744,8 @@ fn c15_cell(run: &mut Run, l: usize, k: KeyCode, bits: u16, h: HandleControl) {
 }
 
 pub fn c15(run: &mut Run) {
-    run.rule = "Exhaustive: 10 layouts x (17 numpad keys + Escape, Backspace, Tab, Return, Delete, Space) x 512 modifier records x 2 modes against the numpad / editing-key table of the property statement: digits with NumLock on, Insert/End/Down/PageDown/Left/Right/Home/Up/PageUp as raw keys with it off (Numpad5 off: '5' or its own raw key), operators / * - + always, NumpadEnter = what Return yields in the same state, decimal key = the layout's separator (',' for No105/FiSe105, '.' elsewhere; De105: either) with NumLock on and U+007F with it off, editing keys U+001B/0008/0009/000A/007F/0020. Event-history layer: each of the 512 modifier records reached by a witness history of key events, then the key pressed through Keyboard::process_keyevent. Non-trivial = case with NumLock off or any of Shift/Ctrl/Alt/AltGr held; distinct = (layout, key, record, mode).".into();
-    run.assumptions = vec!["De105 numpad decimal: '.' (what the crate types) and ',' (what DIN keyboards print) are both accepted; the statement names no separator per layout".into()];
+    run.rule = "Exhaustive: 10 layouts x (17 numpad keys + Escape, Backspace, Tab, Return, Delete, Space) x 512 modifier records x 2 modes against the numpad / editing-key table of the property statement: digits with NumLock on, Insert/End/Down/PageDown/Left/Right/Home/Up/PageUp as raw keys with it off (Numpad5 off: '5' or its own raw key), operators / * - + always, NumpadEnter = what Return yields in the same state, decimal key = the layout's separator (',' for No105/FiSe105, '.' elsewhere; De105 and Azerty: either) with NumLock on and U+007F with it off, editing keys U+001B/0008/0009/000A/007F/0020. Event-history layer: each of the 512 modifier records reached by a witness history of key events, then the key pressed through Keyboard::process_keyevent. Non-trivial = case with NumLock off or any of Shift/Ctrl/Alt/AltGr held; distinct = (layout, key, record, mode).".into();
+    run.assumptions = vec!["De105 and Azerty numpad decimal: '.' (what the crate and Windows type) and ',' (what DIN / French keyboards print) are both accepted; the statement names no separator per layout".into()];
     for l in 0..N_LAYOUTS {
         for k in C15_KEYS {
             for h in MODES {
@@ -898,7 +913,7 @@ use crate::model::mods as mm;
 type Hist = Vec<(KeyCode, KeyState)>;
 
 fn hist_text(h: &[(KeyCode, KeyState)]) -> String {
-    h.iter().map(|(k, s)| format!("{:?}{}", k, match s { KeyState::Down => "↓", KeyState::Up => "↑", KeyState::SingleShot => "·" })).collect::<Vec<_>>().join(" ")
+    h.iter().map(|(k, s)| format!("{:?}{}", k, state_arrow(*s))).collect::<Vec<_>>().join(" ")
 }
 fn hist_json(h: &[(KeyCode, KeyState)]) -> Value {
     Value::Array(h.iter().map(|(k, s)| json!([key_name(*k), state_name(*s)])).collect())
